@@ -6,7 +6,7 @@ import numpy as np
 from ..runner import Acc, HarnessError
 from ..refmodel import Fmt
 from .. import alphabet as al
-from ..common import Fxp, codes, flags, fmt_of, reset_class_state
+from ..common import Fxp, codes, flags, fmt_of, reset_class_state, build
 
 ID = 'C16'
 RULE = ('comparison cases = (format pair, operator of 6, operand kinds {Fxp/Fxp, Fxp/number, number/Fxp}, code pair) compared with the relation '
@@ -136,6 +136,90 @@ def judge_conv(acc, f, part):
     acc.sample(case, 1)
 
 
+def judge_history(acc, f, part):
+    """compare / convert, then x[i] = v in place (also through a slice view of a parent), then compare / convert again"""
+    cs = [c for c in (f.lo, 1, f.hi, 0) if f.lo <= c <= f.hi][:3]
+    if len(cs) < 3:
+        return
+    newc = f.hi if cs[2] != f.hi else f.lo
+    for how in ('setitem', 'parent_of_view'):
+        case = {'part': part, 'history': True, 'fmt': list(f), 'codes': cs, 'new': newc, 'how': how}
+        acc.evaluations += 8
+        acc.transitions += 12
+        acc.nontrivial += 1
+        try:
+            if how == 'setitem':
+                x = build(f, cs, (3,), 'raw')
+                obj = x
+            else:
+                par = build(f, [0] + cs, (4,), 'raw')
+                x = par[1:4]
+                obj = par
+            thr = float(f.value(cs[1]))
+            r0 = [np.asarray(op(x, thr)).tolist() for op in CMP.values()] + [np.asarray(x.astype(int)).tolist(), np.asarray(x.get_val()).tolist()]
+            if how == 'setitem':
+                x[2] = f.fvalue(newc)
+            else:
+                par[3] = f.fvalue(newc)
+            now = cs[:2] + [newc]
+            got = [np.asarray(op(x, thr)).astype(bool).tolist() for op in CMP.values()]
+            gi = [int(v) for v in np.asarray(x.astype(int)).tolist()]
+            gv = [Fraction(v) for v in np.asarray(x.get_val(), dtype=float).tolist()]
+            y = build(f, now, (3,), 'raw')
+            ge = np.asarray(x == y).astype(bool).tolist()
+        except Exception as e:
+            acc.violation('exception', case, '%s compare/convert history (%s) raised %r' % (f.dtype, how, e), {'part': part, 'aspect': 'history'})
+            continue
+        vals = [f.value(c) for c in now]
+        exp = [[op(v, Fraction(thr)) for v in vals] for op in CMP.values()]
+        if got != exp or gi != [math.floor(v) for v in vals] or gv != vals or ge != [True, True, True]:
+            acc.violation('history', case, '%s codes %s: compare, then element 2 := code %d (%s), compare again: %s, expected %s; astype(int) %s get_val %s'
+                          % (f.dtype, cs, newc, how, got, exp, gi, [str(v) for v in gv]), {'part': part, 'aspect': 'history'})
+        else:
+            acc.outcome('history_ok')
+
+
+def judge_layout(acc, f, part):
+    """conversions and comparisons on 2-d objects in transposed / Fortran / reversed layouts"""
+    cs = list(range(f.lo, f.hi + 1))
+    while len(cs) < 6:
+        cs = cs + cs
+    cs = cs[:: max(1, len(cs) // 6)][:6]
+    if len(cs) < 6:
+        return
+    for layout in ('T', 'F', 'rev'):
+        case = {'part': part, 'layout': layout, 'fmt': list(f), 'codes': cs}
+        acc.evaluations += 4
+        acc.transitions += 5
+        acc.nontrivial += 1
+        try:
+            base = np.array(cs, dtype=np.int64)
+            if layout == 'T':
+                x = Fxp(base.reshape(3, 2), f.signed, f.n_word, f.n_frac, raw=True).T
+                lg = base.reshape(3, 2).T
+            elif layout == 'F':
+                x = Fxp(np.asfortranarray(base.reshape(2, 3)), f.signed, f.n_word, f.n_frac, raw=True)
+                lg = base.reshape(2, 3)
+            else:
+                x = Fxp(base.reshape(2, 3), f.signed, f.n_word, f.n_frac, raw=True)[:, ::-1]
+                lg = base.reshape(2, 3)[:, ::-1]
+            lgl = [[int(c) for c in row] for row in lg.tolist()]
+            gi = np.asarray(x.astype(int)).tolist()
+            gv = [[Fraction(v) for v in row] for row in np.asarray(x.get_val(), dtype=float).tolist()]
+            gu = np.asarray(x.uraw()).tolist()
+            gc = np.asarray(x >= float(f.value(cs[2]))).astype(bool).tolist()
+        except Exception as e:
+            acc.violation('exception', case, '%s layout %s raised %r' % (f.dtype, layout, e), {'part': part, 'aspect': 'layout'})
+            continue
+        ev = [[f.value(c) for c in row] for row in lgl]
+        if gi != [[math.floor(v) for v in row] for row in ev] or gv != ev or gu != [[c % (1 << f.n_word) for c in row] for row in lgl] \
+                or gc != [[v >= f.value(cs[2]) for v in row] for row in ev]:
+            acc.violation('layout', case, '%s 2-d object in layout %s: astype(int) %s / get_val / uraw / >= differ from the element-wise values of codes %s'
+                          % (f.dtype, layout, gi, lgl), {'part': part, 'aspect': 'layout'})
+        else:
+            acc.outcome('layout_ok')
+
+
 def neighbours(fxm, a, fym):
     """codes of fym around the value of code a of fxm"""
     v = fxm.value(a) * Fraction(2) ** fym.n_frac
@@ -153,7 +237,8 @@ def bounds(tier, seed):
             'comparisons_adjacent': 'format pairs from n_word in %s x n_frac {0, mid, n}: every boundary/walking-bit code of x against the neighbouring '
                                     'codes floor/ceil(+-1) of the y grid, all 3 operand kinds' % (ADJ_WORDS,),
             'conversions': 'every code of every format n_word<=8, n_frac -1..n_word+1: get_val, astype(float), float(), astype(int), int(), bool(), '
-                           'raw(), uraw(), x(); arrays and scalars', 'seed': seed}
+                           'raw(), uraw(), x(); arrays and scalars; compare/convert, in-place write (directly and through the parent of a slice view), compare/convert '
+                           'again; 2-d objects in transposed / Fortran / reversed layouts', 'seed': seed}
 
 
 def shards(tier, seed):
@@ -205,12 +290,21 @@ def run_shard(sh):
         for s in (True, False):
             for nf in range(-1, nw + 2):
                 judge_conv(acc, Fmt(s, nw, nf), 'V')
+                if nw >= 2:
+                    judge_history(acc, Fmt(s, nw, nf), 'V')
+                    judge_layout(acc, Fmt(s, nw, nf), 'V')
     return acc
 
 
 def replay(case):
     reset_class_state()
     acc = Acc()
+    if case.get('history'):
+        judge_history(acc, Fmt(*case['fmt']), case['part'])
+        return [v for v in acc.violations if v['case'].get('how') == case['how']]
+    if 'layout' in case:
+        judge_layout(acc, Fmt(*case['fmt']), case['part'])
+        return [v for v in acc.violations if v['case'].get('layout') == case['layout']]
     if 'kind' in case:
         judge_cmp(acc, Fmt(*case['fx']), Fmt(*case['fy']), case['xs'], case['ys'], case['kind'], case['part'], case.get('by', 'raw'))
     else:
